@@ -392,9 +392,10 @@ func genFilt(c *reg.Ctx) instr {
 	return in
 }
 
-// otherSends: how much stage p may have written on the band a single-band
-// reader does not look at (must fit the buffer, or the pair can deadlock — see
-// checks/C18.md, cross-band wait)
+// A single-band reader is generated only behind a writer whose output on the
+// other band fits the buffer; otherwise the pair can block for ever
+// (checks/C18.md, observation "cross-band wait"; C18_cross_band_wait_can_block).
+// Such pipelines are outside the property's quantifier and are never generated.
 func safeForSingleBandReader(prev stageProg, b int) bool {
 	return prev.count("drain", -1) == 0 && prev.count("send", 1-b) <= 24
 }
@@ -616,9 +617,7 @@ func runOnceW(c *reg.Ctx, p pipe, procs, yieldRate int, watchdog time.Duration) 
 		collect()
 	case <-time.After(watchdog):
 		c.Count("HANG")
-		if p.Class != "cross-band-wait" {
-			hangs++
-		}
+		hangs++
 		c.Emit(reg.Case{Direct: fmt.Sprintf("pipeline did not finish within %v (deadlock): stages ended so far = ", watchdog) +
 			strings.Join(func() []string { rec.mu.Lock(); defer rec.mu.Unlock(); return append([]string{}, rec.exits...) }(), ","),
 			Desc:  desc{Code: code, GoMaxProcs: procs, YieldRate: yieldRate},
@@ -694,10 +693,6 @@ func run(c *reg.Ctx) {
 			runOnce(c, p, pr, 3)
 		}
 	}
-	// planted: the cross-band wait of C18_progress_refuted (`put (range 40) |
-	// read-line`): the writer blocks on the full value channel while the reader
-	// waits for a line.  Recorded known finding (checks/C18.findings.jsonl).
-	runOnceW(c, pipe{Stages: []stageProg{many(0, 40, 0), {{Op: "recv1", Band: bandB}}}, Class: "cross-band-wait"}, 4, 0, 3*time.Second)
 	for i := 0; i < c.N/3+1; i++ {
 		p := genPipe(c)
 		for r := 0; r < 3; r++ {
